@@ -7,6 +7,21 @@ granularity of the helper functions of the model (`callStep`, `taFail`, `taSucc`
 namespace Fv.Sync.Mutex
 open Fv.Sync
 
+/-! projections through `if` (so that `upd` applications simplify to field-level conditionals) -/
+section ite
+variable (c : Prop) [Decidable c]
+@[simp] theorem Thread.ite_pc (a b : Thread) : (if c then a else b).pc = if c then a.pc else b.pc := by split <;> rfl
+@[simp] theorem Thread.ite_sv (a b : Thread) : (if c then a else b).sv = if c then a.sv else b.sv := by split <;> rfl
+@[simp] theorem Thread.ite_linked (a b : Thread) : (if c then a else b).linked = if c then a.linked else b.linked := by split <;> rfl
+@[simp] theorem Thread.ite_i (a b : Thread) : (if c then a else b).i = if c then a.i else b.i := by split <;> rfl
+@[simp] theorem Thread.ite_cur (a b : Thread) : (if c then a else b).cur = if c then a.cur else b.cur := by split <;> rfl
+@[simp] theorem Thread.ite_blockOn (a b : Thread) : (if c then a else b).blockOn = if c then a.blockOn else b.blockOn := by split <;> rfl
+@[simp] theorem Thread.ite_tgt (a b : Thread) : (if c then a else b).tgt = if c then a.tgt else b.tgt := by split <;> rfl
+@[simp] theorem Thread.ite_w (a b : Thread) : (if c then a else b).w = if c then a.w else b.w := by split <;> rfl
+@[simp] theorem Fut.ite_phase (a b : Fut) : (if c then a else b).phase = if c then a.phase else b.phase := by split <;> rfl
+@[simp] theorem Fut.ite_busy (a b : Fut) : (if c then a else b).busy = if c then a.busy else b.busy := by split <;> rfl
+end ite
+
 inductive Step (cfg : Cfg) (s : State) (t : Tid) : Lbl → State → Prop
   | call {op rest} (hpc : (s.th t).pc = .idle) (hp : s.prog t = op :: rest) :
       Step cfg s t (.call op) (callStep cfg s t op)
@@ -37,29 +52,43 @@ inductive Step (cfg : Cfg) (s : State) (t : Tid) : Lbl → State → Prop
       Step cfg s t (.load .listLock .relaxed (b2n s.wl.locked)) (withPc s t (.llSwap k))
   | llSpin {k} (hpc : (s.th t).pc = .llSpin k) :
       Step cfg s t .spin (withPc s t (.llLoad k))
-  | qRearm (hpc : (s.th t).pc = .qRearm) :
+  | qRearmSyncLinked (hpc : (s.th t).pc = .qRearm) (hc : (s.th t).cur = none) (hl : (s.th t).linked = true) :
       Step cfg s t (.store (.nodeState (me t (s.th t))) .relaxed 0)
-        { s with
-          wl := if (match (s.th t).cur with
-                    | none => (s.th t).linked
-                    | some _ => (s.wl.setWoken (me t (s.th t)) false).wasLinked (me t (s.th t))) = true
-                then s.wl.setWoken (me t (s.th t)) false
-                else (s.wl.setWoken (me t (s.th t)) false).linkBack (me t (s.th t))
-          th := upd s.th t { s.th t with pc := .qFetchOr, linked := true } }
+        { s with wl := s.wl.setWoken (me t (s.th t)) false
+                 th := upd s.th t { s.th t with pc := .qFetchOr, linked := true } }
+  | qRearmSyncLink (hpc : (s.th t).pc = .qRearm) (hc : (s.th t).cur = none) (hl : ¬ (s.th t).linked = true) :
+      Step cfg s t (.store (.nodeState (me t (s.th t))) .relaxed 0)
+        { s with wl := (s.wl.setWoken (me t (s.th t)) false).linkBack (me t (s.th t))
+                 th := upd s.th t { s.th t with pc := .qFetchOr, linked := true } }
+  | qRearmAsyncLinked {f} (hpc : (s.th t).pc = .qRearm) (hc : (s.th t).cur = some f)
+      (hl : (s.wl.setWoken (me t (s.th t)) false).wasLinked (me t (s.th t)) = true) :
+      Step cfg s t (.store (.nodeState (me t (s.th t))) .relaxed 0)
+        { s with wl := s.wl.setWoken (me t (s.th t)) false
+                 th := upd s.th t { s.th t with pc := .qFetchOr, linked := true } }
+  | qRearmAsyncLink {f} (hpc : (s.th t).pc = .qRearm) (hc : (s.th t).cur = some f)
+      (hl : ¬ (s.wl.setWoken (me t (s.th t)) false).wasLinked (me t (s.th t)) = true) :
+      Step cfg s t (.store (.nodeState (me t (s.th t))) .relaxed 0)
+        { s with wl := (s.wl.setWoken (me t (s.th t)) false).linkBack (me t (s.th t))
+                 th := upd s.th t { s.th t with pc := .qFetchOr, linked := true } }
   | qFetchOr (hpc : (s.th t).pc = .qFetchOr) :
       Step cfg s t (.rmw .state .or .relaxed s.word.toNat ({ s.word with hq := true } : MWord).toNat)
         (withPc { s with word := { s.word with hq := true } } t .qLoad)
-  | qLoadLocked (hpc : (s.th t).pc = .qLoad) (hl : s.word.locked = true) :
-      Step cfg s t (.load .state .relaxed s.word.toNat)
-        (withPc s t (.llRel (match (s.th t).cur with | none => .parkLoad | some _ => .pending)))
+  | qLoadLockedSync (hpc : (s.th t).pc = .qLoad) (hl : s.word.locked = true) (hc : (s.th t).cur = none) :
+      Step cfg s t (.load .state .relaxed s.word.toNat) (withPc s t (.llRel .parkLoad))
+  | qLoadLockedAsync {f} (hpc : (s.th t).pc = .qLoad) (hl : s.word.locked = true) (hc : (s.th t).cur = some f) :
+      Step cfg s t (.load .state .relaxed s.word.toNat) (withPc s t (.llRel .pending))
   | qLoadFree (hpc : (s.th t).pc = .qLoad) (hl : ¬ s.word.locked = true) :
       Step cfg s t (.load .state .relaxed s.word.toNat) (setTh s t { s.th t with pc := .qCas, sv := s.word })
-  | qCasOk (hpc : (s.th t).pc = .qCas) (he : s.word = (s.th t).sv) :
+  | qCasOkSync (hpc : (s.th t).pc = .qCas) (he : s.word = (s.th t).sv) (hc : (s.th t).cur = none) :
       Step cfg s t
         (.cas .state false .acquire .relaxed s.word.toNat ({ (s.th t).sv with locked := true } : MWord).toNat true)
         (withPc { s with word := { (s.th t).sv with locked := true }, holders := (t, true) :: s.holders,
-                         wl := s.wl.unlink (me t (s.th t)) } t
-          (.ff (match (s.th t).cur with | none => .retOk | some _ => .retReady)))
+                         wl := s.wl.unlink (me t (s.th t)) } t (.ff .retOk))
+  | qCasOkAsync {f} (hpc : (s.th t).pc = .qCas) (he : s.word = (s.th t).sv) (hc : (s.th t).cur = some f) :
+      Step cfg s t
+        (.cas .state false .acquire .relaxed s.word.toNat ({ (s.th t).sv with locked := true } : MWord).toNat true)
+        (withPc { s with word := { (s.th t).sv with locked := true }, holders := (t, true) :: s.holders,
+                         wl := s.wl.unlink (me t (s.th t)) } t (.ff .retReady))
   | qCasFail (hpc : (s.th t).pc = .qCas) (he : ¬ s.word = (s.th t).sv) :
       Step cfg s t (.cas .state false .acquire .relaxed s.word.toNat s.word.toNat false) (withPc s t .qLoad)
   | ffEmpty {a} (hpc : (s.th t).pc = .ff a) (he : s.wl.len = 0) :
@@ -116,9 +145,8 @@ theorem step_of_mem {cfg : Cfg} {s s' : State} {t : Tid} {l : Lbl} (h : (l, s') 
     Step cfg s t l s' := by
   unfold_next h
   all_goals (repeat' split at h)
-  all_goals simp only [List.mem_cons, List.mem_singleton, List.not_mem_nil, Prod.mk.injEq, or_false,
+  all_goals simp only [List.mem_cons, List.not_mem_nil, Prod.mk.injEq, or_false,
     false_or, List.mem_append] at h
-  all_goals (try (obtain ⟨rfl, rfl⟩ := h))
   all_goals first
     | (rcases h with ⟨rfl, rfl⟩ | ⟨rfl, rfl⟩ <;>
         first
@@ -126,36 +154,43 @@ theorem step_of_mem {cfg : Cfg} {s s' : State} {t : Tid} {l : Lbl} (h : (l, s') 
           | exact Step.wParkSpur (by assumption)
           | exact Step.boPark (by assumption) (by assumption)
           | exact Step.boParkSpur (by assumption))
-    | exact Step.call (by assumption) (by assumption)
-    | exact Step.ret (by assumption)
-    | exact Step.taLoadLocked (by assumption) (by assumption)
-    | exact Step.taLoadFree (by assumption) (by assumption)
-    | exact Step.taCasOk (by assumption) (by assumption)
-    | exact Step.taCasFail (by assumption) (by assumption)
-    | exact Step.spinYield (by assumption)
-    | exact Step.llSwapBusy (by assumption) (by assumption)
-    | exact Step.llSwapOk (by assumption) (by assumption)
-    | exact Step.llLoadBusy (by assumption) (by assumption)
-    | exact Step.llLoadFree (by assumption) (by assumption)
-    | exact Step.llSpin (by assumption)
-    | exact Step.qRearm (by assumption)
-    | exact Step.qFetchOr (by assumption)
-    | exact Step.qLoadLocked (by assumption) (by assumption)
-    | exact Step.qLoadFree (by assumption) (by assumption)
-    | exact Step.qCasOk (by assumption) (by assumption)
-    | exact Step.qCasFail (by assumption) (by assumption)
-    | exact Step.ffEmpty (by assumption) (by assumption)
-    | exact Step.ffNonempty (by assumption) (by assumption)
-    | exact Step.llRel (by assumption)
-    | exact Step.wLoadWoken (by assumption) (by assumption)
-    | exact Step.wLoadWaiting (by assumption) (by assumption)
-    | exact Step.wParkSpur (by assumption)
-    | exact Step.boParkSpur (by assumption)
-    | exact Step.relAndQueued (by assumption) (by assumption)
-    | exact Step.relAndPlain (by assumption) (by assumption)
-    | exact Step.wnStore (by assumption)
-    | exact Step.wnWake (by assumption) (by assumption)
-    | exact Step.dLoadWoken (by assumption) (by assumption)
-    | exact Step.dLoadWaiting (by assumption) (by assumption)
+    | (obtain ⟨rfl, rfl⟩ : _ ∧ _ := h
+       first
+        | exact Step.call (by assumption) (by assumption)
+        | exact Step.ret (by assumption)
+        | exact Step.taLoadLocked (by assumption) (by assumption)
+        | exact Step.taLoadFree (by assumption) (by assumption)
+        | exact Step.taCasOk (by assumption) (by assumption)
+        | exact Step.taCasFail (by assumption) (by assumption)
+        | exact Step.spinYield (by assumption)
+        | exact Step.llSwapBusy (by assumption) (by assumption)
+        | exact Step.llSwapOk (by assumption) (by assumption)
+        | exact Step.llLoadBusy (by assumption) (by assumption)
+        | exact Step.llLoadFree (by assumption) (by assumption)
+        | exact Step.llSpin (by assumption)
+        | exact Step.qRearmSyncLinked (by assumption) (by assumption) (by assumption)
+        | exact Step.qRearmSyncLink (by assumption) (by assumption) (by assumption)
+        | exact Step.qRearmAsyncLinked (by assumption) (by assumption) (by assumption)
+        | exact Step.qRearmAsyncLink (by assumption) (by assumption) (by assumption)
+        | exact Step.qFetchOr (by assumption)
+        | exact Step.qLoadLockedSync (by assumption) (by assumption) (by assumption)
+        | exact Step.qLoadLockedAsync (by assumption) (by assumption) (by assumption)
+        | exact Step.qLoadFree (by assumption) (by assumption)
+        | exact Step.qCasOkSync (by assumption) (by assumption) (by assumption)
+        | exact Step.qCasOkAsync (by assumption) (by assumption) (by assumption)
+        | exact Step.qCasFail (by assumption) (by assumption)
+        | exact Step.ffEmpty (by assumption) (by assumption)
+        | exact Step.ffNonempty (by assumption) (by assumption)
+        | exact Step.llRel (by assumption)
+        | exact Step.wLoadWoken (by assumption) (by assumption)
+        | exact Step.wLoadWaiting (by assumption) (by assumption)
+        | exact Step.wParkSpur (by assumption)
+        | exact Step.boParkSpur (by assumption)
+        | exact Step.relAndQueued (by assumption) (by assumption)
+        | exact Step.relAndPlain (by assumption) (by assumption)
+        | exact Step.wnStore (by assumption)
+        | exact Step.wnWake (by assumption) (by assumption)
+        | exact Step.dLoadWoken (by assumption) (by assumption)
+        | exact Step.dLoadWaiting (by assumption) (by assumption))
 
 end Fv.Sync.Mutex
